@@ -173,6 +173,26 @@ def scan (cur : Bytes) : List Bytes → Bool × Bytes × List Bytes
   | [] => (false, cur, [])
   | l :: rest => (true, l, rest)
 
+/-- `*bufio.Scanner` with the default line splitter and no token-size limit (`Buffer(nil, math.MaxInt)`), as far as
+`for sc.Scan() { … sc.Text() … }; sc.Err()` goes: the tokens not yet returned and how the source ends. -/
+structure ScanRd where
+  lines : List Bytes
+  ending : Ending
+  deriving Repr, DecidableEq
+
+/-- RE2 `\s` (ASCII only: tab, LF, FF, CR, space) -/
+def isSpaceRe (b : UInt8) : Bool := b == 9 || b == 10 || b == 12 || b == 13 || b == 32
+
+/-- `regexp.MustCompile(`\S+`).FindAllString(s, -1)`: the maximal runs of non-space bytes, left to right
+(a byte that is not valid UTF-8 counts as U+FFFD, which is `\S`, so bytewise is exact). -/
+def nonSpaceFieldsAux : Bytes → Bytes → List Bytes
+  | [], cur => if cur.isEmpty then [] else [cur]
+  | b :: rest, cur =>
+    if isSpaceRe b then (if cur.isEmpty then nonSpaceFieldsAux rest [] else cur :: nonSpaceFieldsAux rest [])
+    else nonSpaceFieldsAux rest (cur ++ [b])
+
+def nonSpaceFields (s : Bytes) : List Bytes := nonSpaceFieldsAux s []
+
 /-- a set of ints (`map[int]struct{}`) as an ascending duplicate-free list: `m[k] = struct{}{}` -/
 def setInsert (m : List Int) (k : Int) : List Int :=
   match m with
